@@ -7,12 +7,14 @@ import (
 	"time"
 
 	"github.com/spf13/afero"
+	"github.com/spf13/afero/mem"
 )
 
-// PosixMem is afero.MemMapFs with the four POSIX rules that MemMapFs lacks and that lock protocols
+// PosixMem is afero.MemMapFs with the five POSIX rules that MemMapFs lacks and that lock protocols
 // built on directories depend on: removing a non-empty directory fails with ENOTEMPTY, and creating
 // an entry below a missing parent fails with ENOENT, and creating or removing an entry updates the
-// modification time of its parent directory, and a directory cannot be opened for writing (EISDIR).
+// modification time of its parent directory, a directory cannot be opened for writing (EISDIR), and a handle on a removed directory lists nothing (ENOENT).
+// The lock scenarios of C01 are run on PosixMem AND on the real OS filesystem (ClockedOS) and must agree execution for execution.
 // Everything else is MemMapFs. It is used as the
 // in-memory stand-in of the OS backend ("several processes on one POSIX filesystem") so that
 // exhaustive exploration does not pay for system calls; the raw MemMapFs and the real OS backend
@@ -104,6 +106,52 @@ func (p *PosixMem) OpenFile(name string, flag int, perm os.FileMode) (afero.File
 		p.touchParent(name)
 	}
 	return f, err
+}
+
+// Open: a handle on a directory keeps referring to THAT directory (inode): once it was removed — even if another
+// directory now has the same name — listing through the handle fails with ENOENT, as on POSIX.
+func (p *PosixMem) Open(name string) (afero.File, error) {
+	f, err := p.MemMapFs.Open(name)
+	if err != nil {
+		return f, err
+	}
+	if mf, ok := f.(*mem.File); ok {
+		if fi, e := mf.Stat(); e == nil && fi.IsDir() {
+			return &posixDirHandle{File: f, fs: p, name: name, data: mf.Data()}, nil
+		}
+	}
+	return f, nil
+}
+
+type posixDirHandle struct {
+	afero.File
+	fs   *PosixMem
+	name string
+	data *mem.FileData
+}
+
+func (d *posixDirHandle) gone() bool {
+	cur, err := d.fs.MemMapFs.Open(d.name)
+	if err != nil {
+		return true
+	}
+	defer cur.Close()
+	mf, ok := cur.(*mem.File)
+	return !ok || mf.Data() != d.data
+}
+
+func (d *posixDirHandle) Readdir(n int) ([]os.FileInfo, error) {
+	if d.gone() {
+		return nil, &os.PathError{Op: "readdirent", Path: d.name, Err: syscall.ENOENT}
+	}
+	return d.File.Readdir(n)
+}
+
+func (d *posixDirHandle) Readdirnames(n int) ([]string, error) {
+	if d.gone() {
+		return nil, &os.PathError{Op: "readdirent", Path: d.name, Err: syscall.ENOENT}
+	}
+	return d.File.Readdirnames(n)
 }
 
 func (p *PosixMem) Create(name string) (afero.File, error) {
